@@ -150,6 +150,20 @@ CHECKS = {
         technique="must-dataflow (guard dominance) + typestate over the printer CFGs + FOLLOW-set facts from the static layout model",
         design="4/C14",
     ),
+    "C15": dict(
+        category="other",
+        text="F1 every front-end function and facade forwards tpm_type, root_path, command_code, **kwargs and its own byte "
+             "stream down to Binary.marshal (50 argument obligations); F2 sibling agreement: all front-ends return the "
+             "delegated generator's value; F3 every int(x, 16) sees only bytes tested against a hex alphabet (dominating "
+             "test or chain-guarded accumulation); F4=C10-T2 laziness; F5 pcapng size slice / runt threshold recomputed from "
+             "the Command/Response header layout in L, trimming never extends, auto magic = pcapng SHB prefix, look-ahead "
+             "bytes re-yielded, dispatch table; F6 swtpm scanner: 4 distinct states exhaustively branched, end-of-input tested "
+             "first, only defined states assigned, one byte per validated digit pair, documented marker/alphabet constants. "
+             "Language equivalence of the two text scanners with the documented formats and dpkt's parsing are not decided.",
+        note="trusted: CPython ast; L (E1); dpkt. The scanner automata are not explored (that would be model checking).",
+        technique="sibling agreement (delegation/return) + dominance of validation tests + constants recomputed from the static layout model + state-machine shape lint",
+        design="4/C15",
+    ),
     "C16": dict(
         category="other",
         text="O1 operator table: each of the 26 binary/reflected, 6 comparison, divmod pair, __int__/__index__/__hash__ "
